@@ -85,7 +85,7 @@ def values_for(rng, lb, ub):
         for i in range(m):
             cands = [float(rng.uniform(-4, 4))]
             if np.isfinite(lb[i]) and np.isfinite(ub[i]):
-                cands += [0.5 * (lb[i] + ub[i]),
+                cands += [0.5 * lb[i] + 0.5 * ub[i],
                           lb[i] + float(rng.random()) * (ub[i] - lb[i])]
             for lim in (lb[i], ub[i]):
                 if np.isfinite(lim):
@@ -337,11 +337,17 @@ def _run_case(case):
                 r = rng.random()
                 if fam == "mixmag" and (i == 0 or r < 0.3):
                     big = 10.0 ** (rng.uniform(3, 15) if rng.random() < 0.75
-                                   else rng.uniform(100, 305))
-                    k = int(rng.integers(4))
+                                   else rng.uniform(100, 308.2))
+                    k = int(rng.integers(5))
+                    if k == 4 and rng.random() < 0.5:
+                        # an equality whose level is in the last binade
+                        big = 10.0 ** rng.uniform(307.96, 308.2)
+                    big = min(big, 1.7e308)
                     lo[i], hi[i] = [(-big, big), (-math.inf, big),
                                     (-big, math.inf),
-                                    (big, big * (1 + rng.uniform(0, 1)))][k]
+                                    (big, min(big * (1 + rng.uniform(0, 1)),
+                                              1.79e308)),
+                                    (big, big)][k]
                 elif fam == "mixmag":
                     base = float(rng.choice([0.0, rng.uniform(-2, 2),
                                              10.0 ** rng.uniform(-6, 0)]))
